@@ -171,7 +171,7 @@ func splitTop(s, sep string) []string {
 	return out
 }
 
-var nameRe = regexp.MustCompile(`^([A-Za-z0-9_./\-]+):\s+(.*)$`)
+var nameRe = regexp.MustCompile(`^([A-Za-z0-9_./,\-]+):\s+(.*)$`)
 
 // LoadSpecs parses every contracts_verif.go under root.
 func LoadSpecs(root string) (*SpecSet, error) {
@@ -552,7 +552,7 @@ func (ev *evalEnv) bool(sp *Spec) *smt.Term {
 	// evaluate the consequent only under the antecedents (so that partial getters are
 	// not forced on paths where the antecedent is already false)
 	ante := smt.And(antes...)
-	if ante.IsFalse() {
+	if ante.IsFalse() || ev.ex.simplifyUnder(ante).IsFalse() {
 		return smt.True
 	}
 	return smt.Implies(ante, ev.ex.term(ev.eval(sp.Cons).V))
@@ -719,12 +719,12 @@ func (ev *evalEnv) eval(e ast.Expr) tval {
 		// package-qualified name?
 		if id, ok := x.X.(*ast.Ident); ok {
 			if _, isVar := ev.lookup(id.Name); !isVar {
-				if p := ev.importedPkg(id.Name); p != nil {
-					obj := p.Scope().Lookup(x.Sel.Name)
-					if obj == nil {
+				if ev.importedPkg(id.Name) != nil {
+					p := ev.importedPkg(id.Name, x.Sel.Name)
+					if p == nil {
 						ev.fail(e, "unknown package member")
 					}
-					return ev.objVal(e, obj)
+					return ev.objVal(e, p.Scope().Lookup(x.Sel.Name))
 				}
 			}
 		}
@@ -756,27 +756,55 @@ func (ev *evalEnv) evalSpecVal(sp *Spec) tval {
 	return tval{ev.bool(sp), types.Typ[types.Bool]}
 }
 
-func (ev *evalEnv) importedPkg(name string) *types.Package {
-	if ev.pkg == nil {
-		return nil
-	}
-	for _, imp := range ev.pkg.Imports() {
-		if imp.Name() == name {
-			return imp
+// importedPkgs lists the packages a qualifier may refer to: the sibling elys package of that
+// name first, then imports of the contract's package with that name, then known aliases.
+func (ev *evalEnv) importedPkgs(name string) []*types.Package {
+	var out []*types.Package
+	if ev.pkg != nil {
+		path := ev.pkg.Path()
+		if i := strings.LastIndex(path, "/"); i >= 0 {
+			sib := path[:i] + "/" + name
+			for _, p := range ev.ex.Cfg.Prog.AllPackages() {
+				if p.Pkg.Path() == sib {
+					out = append(out, p.Pkg)
+				}
+			}
 		}
-	}
-	// also search every loaded package by name (for aliases like ptypes)
-	for _, p := range ev.ex.Cfg.Prog.AllPackages() {
-		if p.Pkg.Name() == name && isElysPkg(p.Pkg) {
-			return p.Pkg
+		for _, imp := range ev.pkg.Imports() {
+			if imp.Name() == name {
+				out = append(out, imp)
+			}
 		}
 	}
 	if alias, ok := pkgAliases[name]; ok {
 		for _, p := range ev.ex.Cfg.Prog.AllPackages() {
 			if p.Pkg.Path() == alias {
-				return p.Pkg
+				out = append(out, p.Pkg)
 			}
 		}
+	}
+	for _, p := range ev.ex.Cfg.Prog.AllPackages() {
+		if p.Pkg.Name() == name && isElysPkg(p.Pkg) {
+			out = append(out, p.Pkg)
+		}
+	}
+	return out
+}
+
+// importedPkg returns the first candidate package that declares member (or any candidate
+// when member is empty).
+func (ev *evalEnv) importedPkg(name string, member ...string) *types.Package {
+	cands := ev.importedPkgs(name)
+	if len(member) > 0 {
+		for _, c := range cands {
+			if c.Scope().Lookup(member[0]) != nil {
+				return c
+			}
+		}
+		return nil
+	}
+	if len(cands) > 0 {
+		return cands[0]
 	}
 	return nil
 }
@@ -890,6 +918,16 @@ func (ev *evalEnv) call(x *ast.CallExpr) tval {
 			return tval{bech32(ex.term(ev.eval(x.Args[0]).V)), types.Typ[types.String]}
 		case "unbech32":
 			return tval{unbech32(ex.term(ev.eval(x.Args[0]).V)), nil}
+		case "decQuo":
+			ex.specArith = true
+			defer func() { ex.specArith = false }()
+			return tval{ex.decQuoWith(ex.term(ev.eval(x.Args[0]).V), ex.term(ev.eval(x.Args[1]).V), rhe, "quo"), intT}
+		case "decMul":
+			return tval{ex.decMulWith(ex.term(ev.eval(x.Args[0]).V), ex.term(ev.eval(x.Args[1]).V), rhe, "mul"), intT}
+		case "roundInt":
+			return tval{rhe(ex.term(ev.eval(x.Args[0]).V)), intT}
+		case "truncInt":
+			return tval{truncE18(ex.term(ev.eval(x.Args[0]).V)), intT}
 		case "fst", "snd":
 			v := ev.eval(x.Args[0])
 			tv, ok := v.V.(TupleV)
@@ -1112,10 +1150,12 @@ func (ev *evalEnv) call(x *ast.CallExpr) tval {
 	// package function?
 	if id, ok := sel.X.(*ast.Ident); ok {
 		if _, isVar := ev.lookup(id.Name); !isVar {
-			if p := ev.importedPkg(id.Name); p != nil {
-				if obj, ok := p.Scope().Lookup(sel.Sel.Name).(*types.Func); ok {
-					fv := ev.objVal(x, obj)
-					return ev.callFunc(x, fv.V.(*ClosureV).Fn, nil)
+			if ev.importedPkg(id.Name) != nil {
+				if p := ev.importedPkg(id.Name, sel.Sel.Name); p != nil {
+					if obj, ok := p.Scope().Lookup(sel.Sel.Name).(*types.Func); ok {
+						fv := ev.objVal(x, obj)
+						return ev.callFunc(x, fv.V.(*ClosureV).Fn, nil)
+					}
 				}
 				ev.fail(x, "unknown package function")
 			}
